@@ -693,3 +693,41 @@ Example go_forms_examples :
   signed_slice_gen true I8 (s2r " 0x7f ,-128,	0b1 ") = Ok [127; -128; 1]%Z /\
   (exists c, signed_slice_gen true I8 (s2r "1, 128") = Err c).
 Proof. repeat split; try (vm_compute; reflexivity). eexists. vm_compute. reflexivity. Qed.
+
+(* ------------------------------------------------------------------ *)
+(* floats: the dials part on top of strconv's print/parse round trip *)
+From Dials Require Import Text.ParseFloat.
+
+Section FloatRT.
+  Variables F64 F32 : Type.
+  Variable parse_float : N -> str -> outcome F64.
+  Variable overflow32 : F64 -> bool.
+  Variable to32 : F64 -> F32.
+  Variable of32 : F32 -> F64.                      (* exact widening float64(x) *)
+  Variable fmt64 : F64 -> str.                     (* strconv.FormatFloat(f, 'g', -1, 64) *)
+  Variable fmt32 : F32 -> str.                     (* strconv.FormatFloat(float64(f), 'g', -1, 32) *)
+  Hypothesis strconv64 : forall f, parse_float 64 (fmt64 f) = Ok f.
+  Hypothesis strconv32 : forall f, parse_float 32 (fmt32 f) = Ok (of32 f).
+  Hypothesis narrow_widen : forall f, to32 (of32 f) = f.
+  Hypothesis widened_fits : forall f, overflow32 (of32 f) = false.
+
+  Lemma float_roundtrip_given_strconv_l :
+    (forall f, parse_number_f64 F64 parse_float (fmt64 f) = Ok f) /\
+    (forall f, parse_number_f32 F64 F32 parse_float overflow32 to32 (fmt32 f) = Ok f).
+  Proof.
+    split; intros f.
+    - unfold parse_number_f64. rewrite strconv64. reflexivity.
+    - unfold parse_number_f32. rewrite strconv32. cbn [obind]. rewrite widened_fits, narrow_widen. reflexivity.
+  Qed.
+End FloatRT.
+
+(* the current tree *)
+Lemma int_slice_roundtrip_l w zs : Forall (fun z => in_srange w z = true) zs ->
+  signed_slice w (int_slice_string zs) = Ok zs.
+Proof. exact (signed_slice_roundtrip_gen true w zs (or_introl eq_refl)). Qed.
+Lemma uint_slice_roundtrip_l w ns : Forall (fun n => in_urange w n = true) ns ->
+  unsigned_slice w (uint_slice_string ns) = Ok ns.
+Proof. exact (unsigned_slice_roundtrip_gen true w ns (or_introl eq_refl)). Qed.
+
+Definition go_forms_l :=
+  conj lit_prefix_forms (conj lit_legacy_octal (conj digits_val_skips_underscores trim_space_pad)).
